@@ -11,7 +11,7 @@ ASSUMPTIONS = [
     'H15b: the real TcpTransport.bulk_write / TcpTransportAsync.bulk_write over socket/select/StreamWriter stubs (see C18): send() accepts a count chosen exhaustively the same way; real loopback sockets with constrained SO_SNDBUF are outside (the kernel is replaced by the documented send() contract)',
 ]
 BOUNDS = {
-    'quick': 'operations connect, shell, stat, push (3 WRTEs): one short write at every call index with all k of the representative set; two short writes for connect+shell; sync+async; TcpTransport under _AdbIOManager._send with short send()',
+    'quick': 'operations connect, shell, stat, push (3 WRTEs): one short write at every call index with all k of the representative set; two short writes for connect+shell; sync+async; three slow short writes (6 s each, read_timeout_s 10 s; accepted counts {1, L//2}) for shell/stat/pull against a device that does or does not wait for acknowledgements; TcpTransport/TcpTransportAsync under _AdbIOManager._send with up to 3 short send()s in a 64-byte message',
     'thorough': 'two short writes anywhere for every operation; push with 6 WRTEs',
 }
 VALIDATE_EVERY = {'quick': 6, 'thorough': 6}
@@ -27,12 +27,28 @@ def reps(L):
 
 def h_short(ctx, mods, shape):
     budget = {'n': shape['nshort']}
-    state = {'on': False, 'shorts': []}
+    state = {'on': False, 'shorts': [], 'rest': None, 'truncated': False}
+
+    slow = shape.get('slow')
 
     def short_write(L, idx):
+        k = short_write1(L, idx)
+        if slow:
+            # lenient mode: a message is truncated when the write after a short one is not exactly the unsent remainder;
+            # nothing after that point is delivered to the simulated services, the harness judges it when the call returns
+            data = as_sym(w.wire.current_write)
+            if state['rest'] is not None and not (len(data) == len(state['rest']) and data == state['rest']):
+                state['truncated'] = True
+                st.dev.decoder.broken = True
+            state['rest'] = data[k:] if k < L else None
+        return k
+
+    def short_write1(L, idx):
         if not state['on'] or budget['n'] <= 0:
             return L
         r = reps(L)
+        if shape.get('few') and L > 1:
+            r = sorted({1, L // 2} - {0})
         if not r:
             return L
         c = ctx.choose(len(r) + 1, 'accepted byte count')
@@ -40,9 +56,15 @@ def h_short(ctx, mods, shape):
             return L
         budget['n'] -= 1
         state['shorts'].append((idx, r[c - 1], L))
+        if slow:
+            w.clock.advance(slow)      # the peer is slow to drain: this short write took `slow` seconds
         return r[c - 1]
 
     st = Std(ctx, sym_rid=True)
+    if shape.get('no_flow_control'):
+        st.dev.flow_control = False
+    if slow:
+        st.dev.decoder.lenient = True      # a call that raises may leave a truncated message behind: framing is judged when the call returns
     w = World(ctx, mods, st.dev, impl=shape['impl'], short_write=short_write, default_timeout=1)
     opname = shape['op']
     if opname == 'connect':
@@ -67,10 +89,13 @@ def h_short(ctx, mods, shape):
     # whatever happened, the peer must have received whole messages, in order and without gaps - unless the call raised
     if o.ok:
         st.dev.decoder.finish()
-        ctx.check(not st.dev.decoder.broken, 'the peer received a well-framed stream')
+        ctx.check(not state['truncated'], 'a message is never silently truncated: after a short write the unsent remainder follows, or the call raises')
+        ctx.check(not st.dev.decoder.broken and not st.dev.decoder.framing_errors, 'the peer received a well-framed stream', detail=str(st.dev.decoder.framing_errors[:3]))
     else:
         ctx.check(True, 'the call raised (allowed)')
-        if state['shorts'] and isinstance(o.exc, (mods.exceptions.TcpTimeoutException, mods.exceptions.AdbTimeoutError)):
+        if slow:
+            ctx.check(isinstance(o.exc, (mods.exceptions.TcpTimeoutException, mods.exceptions.AdbTimeoutError)), 'a message that short, slow writes could not complete within read_timeout_s ends the call with a timeout error', detail=repr(o.exc))
+        elif state['shorts'] and isinstance(o.exc, (mods.exceptions.TcpTimeoutException, mods.exceptions.AdbTimeoutError)):
             ctx.fail('after a short write the rest of the message was never sent: the peer got a truncated message and the operation stalled into a timeout', detail=repr(o.exc))
 
 
@@ -158,6 +183,10 @@ from .c06 import h_threads, h_async
 HARNESSES = {'short': h_short, 'sendlen': h_sendlen, 'wfault': h_wfault, 'threads': h_threads, 'async': h_async}
 
 
+from .c18 import h_write as h_tcpwrite
+HARNESSES['tcpwrite'] = h_tcpwrite
+
+
 def shapes(tier, seed):
     q = tier == 'quick'
     out = []
@@ -173,6 +202,17 @@ def shapes(tier, seed):
         out.append({'h': 'wfault', 'impl': impl, 'spec': 'shell', 'nwrites': 8})
         if not q:
             out.append({'h': 'short', 'impl': impl, 'op': 'push', 'spec': ['push', {'size': 20000}], 'nshort': 1})
+    # slow short writes (each takes 6 s of virtual time, read_timeout_s = 10 s): a message they cannot complete in time raises;
+    # the device does not wait for acknowledgements, so the rest of its answer is already there
+    for impl in ('sync', 'async'):
+        out.append({'h': 'short', 'impl': impl, 'op': 'shell', 'spec': ['shell', {'lens': [1]}], 'nshort': 3, 'few': True, 'slow': 6, 'no_flow_control': True, 'max_paths': 400000})
+        out.append({'h': 'short', 'impl': impl, 'op': 'shell', 'spec': ['shell', {'lens': [1]}], 'nshort': 3, 'few': True, 'slow': 6, 'max_paths': 400000})
+        out.append({'h': 'short', 'impl': impl, 'op': 'stat', 'spec': 'stat', 'nshort': 3, 'few': True, 'slow': 6, 'no_flow_control': True, 'max_paths': 400000})
+        out.append({'h': 'short', 'impl': impl, 'op': 'pull', 'spec': ['pull', {}], 'nshort': 3, 'few': True, 'slow': 6, 'no_flow_control': True, 'max_paths': 400000})
+    # the TCP transports under _AdbIOManager._send (socket layer stub of C18): >= 3 short send()s inside one message
+    for impl in ('sync', 'async'):
+        out.append({'h': 'tcpwrite', 'impl': impl, 'n': 3, 'nshort': 2})
+        out.append({'h': 'tcpwrite', 'impl': impl, 'n': 40, 'nshort': 3, 'max_paths': 200000})
     # a short write while another stream is sending: the remainder still follows immediately (framing oracle only; results belong to C06)
     sh = ['shell', {'lens': [1]}]
     out.append({'h': 'async', 'ops': [sh, sh], 'short_writes': 1, 'judge_results': False, 'max_paths': 200000})
